@@ -45,3 +45,4 @@ Example C10_nonvacuous :
   /\ option_strings (mkcfg DBoth GBoth NWithoutRoot) f
      = ["-q"; "--a_b"; "--a-b"; "--al_1"; "--al-1"; "--s_b.a_b"; "--s-b.a-b"].
 Proof. split; [split; [reflexivity | discriminate] | vm_compute; reflexivity]. Qed.
+Print Assumptions C10_nonvacuous.
